@@ -16,6 +16,7 @@ for p in seeded/*/patch.diff selftest/mutants/*.diff; do [ -f "$p" ] || continue
   if [[ $p == seeded/* ]]; then name=$(basename $(dirname $p)); else name=$(basename $p .diff); fi
   id=${name%%-*}; [ -n "$only" ] && [ "$only" != "$id" ] && continue
   [ -f checks/$id.json ] || { echo "skip $name (no check for $id yet)"; continue; }
+  if [ -f seeded/$name/meta.json ] && grep -q '"detected_by": "NOT DETECTED' seeded/$name/meta.json; then echo "skip $name (recorded as not detected)"; continue; fi
   git -C /repo apply /verif/$p 2>/dev/null || { echo "PATCH-DOES-NOT-APPLY $name"; FAIL=1; continue; }
   out=$(bin/check $id 2>&1); rc=$?
   git -C /repo checkout -- . 
